@@ -8,17 +8,22 @@ the code: the real pipeline  source -> map_async(func, parallelism=p) -> consume
     a      arrive   (a producer emits the next element and does NOT await the result: any number outstanding)
     h      handle   (let the loop run its next ready handle)
     j<k>   jobdone  (the environment resolves the future awaited by the k-th (mod n) unresolved started job)
-    d      done     (the consumer completes the awaitable it returned)
+    d      done     (the consumer completes the awaitable it returned; with several pending: the lowest-numbered worker's)
+    S / X  start() / stop() of the map_async node (X is skipped while `work_task is None`: the code raises TypeError);
+           `X S` adjacent = a restart with whatever is in flight
 executed from the loop's `after_handle` hook, so arrivals and completions fall between ANY two handles.
 
 Before a handle runs it is classified from the loop's own data (which task it steps — `_insert_job` of which
-element, `work_callback`, which user job; first step / wake-up by a future / re-queued by `sleep(0)`; tornado's
-`multi_future` callback of which insert task; gather's `_done_callback`); after every step the WHOLE ready queue is
+element, `work_callback` of which worker (workers are numbered in creation order), which user job; first step /
+wake-up by a future / re-queued by `sleep(0)`; tornado's `multi_future` callback of which insert task; gather's
+`_done_callback` of which worker's emission; `asyncio.wait`'s `_on_completion` for which waiting worker); after every
+step the WHOLE ready queue is
 classified the same way.  The Lean model must ACCEPT the action sequence, must have run the same handle at every
 tick, and must agree after EVERY step on: the ready queue (modelled handles, in order), `_insert_lock._locked` and
-who holds it, `_insert_lock._waiters` (who, future resolved or not), the work queue, what the worker is suspended
-on (getter registered / which job task / the consumer), the order `func` was called, deliveries, releases, producers
-notified.  No oracle is evaluated here.
+who holds it, `_insert_lock._waiters` (who, future resolved or not), the work queue, for EVERY worker task ever created
+its stop event and what it is suspended on (predecessor wait / getter registered / which job task / the consumer /
+finished), `work_task`, `work_queue._getters` (which workers), the order `func` was called, deliveries, releases,
+producers notified.  No oracle is evaluated here.
 """
 import asyncio
 import gc
@@ -32,6 +37,9 @@ GROUP = "MapAsyncFine"
 # which variant of the model the node is compared with: "locked" (the code as it is).  MAFINE_VARIANT=fastPath validates
 # the refuted variant of the model against a tree with the lock-free fast path applied (used once, by hand).
 VARIANT = os.environ.get("MAFINE_VARIANT", "locked")
+# worker life cycle: "current"; MAFINE_LIFE=startReplaces / noPredecessorWait validate the two refuted pre-repair
+# mechanisms against the trees they describe (90921f4 and 63350ae; used once, by hand).
+LIFE = os.environ.get("MAFINE_LIFE", "current")
 
 
 class _NoLock:
@@ -66,7 +74,11 @@ class Exec:
         self.delivered = []
         self.fired = []
         self.acked = []
-        self.outstanding = None      # (index, future)
+        self.outstanding = []        # [(index, future, worker)] pending consumer awaitables
+        self.work_tasks = []         # worker tasks in creation order
+        self.gather_owner = {}       # id(consumer future) -> worker
+        self.stops = self.starts = self.restarts_inflight = 0
+        self.waitprev_seen = 0
         self.seen_tasks = set()      # tasks whose first step has run
         self.ins_task = {}           # id(task) -> arrival index (insert tasks)
         self.job_task = {}           # id(task) -> arrival index (user job tasks)
@@ -113,8 +125,22 @@ class Exec:
         idx = self.values.index(x) if x in self.values else -1
         self.delivered.append(idx)
         fut = self.loop.create_future()
-        self.outstanding = (idx, fut)
+        w = self._worker_index(asyncio.current_task())
+        self.outstanding.append((idx, fut, w))
+        self.gather_owner[id(fut)] = w
+        self._futs.append(fut)
         return fut
+
+    def _worker_index(self, task):
+        for k, t in enumerate(self.work_tasks):
+            if t is task:
+                return k
+        return -1
+
+    def _discover_workers(self):
+        wt = self.node.work_task
+        if wt and self._worker_index(wt[1]) < 0:
+            self.work_tasks.append(wt[1])
 
     # ------------------------------------------------------------ classification of handles
     def _task_kind(self, task):
@@ -134,7 +160,9 @@ class Exec:
             self._keep.append(task)
             return ("ins", i)
         if name.endswith("map_async.work_callback"):
-            return ("work",)
+            if self._worker_index(task) < 0:
+                self.work_tasks.append(task)
+            return ("work", self._worker_index(task))
         if id(co) in self.job_coro:
             self.job_task[t] = self.job_coro[id(co)]
             self._keep.append(task)
@@ -156,7 +184,7 @@ class Exec:
             if running:
                 self.seen_tasks.add(id(owner))
             if kind[0] == "work":
-                return "w"
+                return "w%d" % kind[1]
             if kind[0] == "ins":
                 return ("L" if wake else "I" if first else "P") + str(kind[1])
             return ("V" if wake else "F") + str(kind[1])
@@ -167,7 +195,10 @@ class Exec:
                 return "K" + str(kind[1])
             return None
         if name == "_done_callback" and "gather" in qual:
-            return "G"
+            return "G%d" % (self.gather_owner.get(id(h._args[0]), -1) if h._args else -1)
+        if name == "_on_completion" and h._args and isinstance(h._args[0], asyncio.Task):
+            k = self._worker_index(h._args[0])     # the worker that finished; its successor is waiting
+            return "C%d" % (k + 1) if k >= 0 else None
         return None
 
     def live_ready(self):
@@ -197,26 +228,43 @@ class Exec:
         queue = []
         for item in list(q._queue):
             queue.append(self.job_task.get(id(item[0]), self.job_coro.get(id(item[0].get_coro()), -1)))
-        wt = node.work_task[1] if node.work_task else None
-        if wt is None:
-            worker = "-"
-        elif any(not g.done() for g in q._getters):
-            worker = "g1"
-        elif self.outstanding is not None:
-            worker = "e%d" % self.outstanding[0]
-        else:
-            fw = getattr(wt, "_fut_waiter", None)
-            if isinstance(fw, asyncio.Task):
+        self._discover_workers()
+        workers = []
+        getters = []
+        busy = dict((w, idx) for idx, fut, w in self.outstanding)
+        for k, t in enumerate(self.work_tasks):
+            if t.done():
+                workers.append([True, "F"])
+                continue
+            fr = t.get_coro().cr_frame
+            stop = bool(fr.f_locals["stop_work"].is_set()) if fr is not None and "stop_work" in fr.f_locals else None
+            fw = getattr(t, "_fut_waiter", None)
+            if fw is None:
+                st = "?"
+            elif isinstance(fw, asyncio.Task):
                 self._task_kind(fw)
-                worker = "a%d" % self.job_task.get(id(fw), -1)
+                st = "a%d" % self.job_task.get(id(fw), -1)
+            elif fw.done():
+                st = "?"
+            elif any(g is fw for g in q._getters):
+                st = "g1"
+            elif k in busy:
+                st = "e%d" % busy[k]
+            elif "Gathering" in type(fw).__name__:
+                st = "?"
             else:
-                worker = "?"
+                st = "p"
+            workers.append([stop, st])
+        for g in q._getters:
+            if not g.done():
+                getters.append(next((k for k, t in enumerate(self.work_tasks) if getattr(t, "_fut_waiter", None) is g), -1))
+        work_task = self._worker_index(node.work_task[1]) if node.work_task else None
         for i, e in enumerate(self.emits):
             if e is not None and e.done() and i not in self.acked:
                 self.acked.append(i)
         ready = [k for k in (self.classify(h) for h in self.live_ready()) if k is not None]
         return {"ready": ready, "locked": bool(lk._locked), "holder": holder, "lockq": lockq, "queue": queue,
-                "worker": worker, "started": list(self.started), "outs": list(self.delivered), "fin": list(self.fired),
+                "workers": workers, "workTask": work_task, "getters": getters, "started": list(self.started), "outs": list(self.delivered), "fin": list(self.fired),
                 "acked": sorted(self.acked), "ins_done": sorted(self.ins_task[id(t)] for t in self._keep if id(t) in self.ins_task and t.done())}
 
     def record(self, tok, acts, ran=None):
@@ -226,6 +274,8 @@ class Exec:
         self.max_outstanding = max(self.max_outstanding, len(self.values) - len(obs["started"]))
         if obs["lockq"]:
             self.lock_waiters_seen += 1
+        if any(w[1] == "p" for w in obs["workers"]):
+            self.waitprev_seen += 1
 
     # ------------------------------------------------------------ driving
     def unresolved(self):
@@ -237,10 +287,13 @@ class Exec:
             en.append("a")
         if self.live_ready():
             en.append("h")
-        if self.outstanding is not None:
+        if self.outstanding:
             en.append("d")
         for k in range(len(self.unresolved())):
             en.append("j%d" % k)
+        en.append("S")
+        if self.node.work_task is not None:
+            en.append("X")
         return en
 
     def next_token(self):
@@ -256,7 +309,7 @@ class Exec:
             self.pos += 1
             return t
         # drain: complete everything, oldest first, then let the loop run dry
-        if self.outstanding is not None:
+        if self.outstanding:
             return "d"
         if self.unresolved():
             return "j0"
@@ -292,9 +345,15 @@ class Exec:
                         continue
                     self.do_arrive()
                 elif tok == "d":
-                    if self.outstanding is None:
+                    if not self.outstanding:
                         continue
                     self.do_done()
+                elif tok == "S":
+                    self.do_start()
+                elif tok == "X":
+                    if self.node.work_task is None:
+                        continue
+                    self.do_stop()
                 elif tok.startswith("j"):
                     un = self.unresolved()
                     if not un:
@@ -326,10 +385,25 @@ class Exec:
         self.record(tok, ["J%d" % i])
 
     def do_done(self):
-        idx, fut = self.outstanding
-        self.outstanding = None
+        k = min(range(len(self.outstanding)), key=lambda i: self.outstanding[i][2])
+        idx, fut, w = self.outstanding.pop(k)
         fut.set_result(None)
         self.record("d", ["D"])
+
+    def in_flight(self):
+        return len(self.started) > len(self.fired)
+
+    def do_start(self):
+        self.starts += 1
+        if self.executed and self.executed[-1] == "X" and self.in_flight():
+            self.restarts_inflight += 1
+        self.node.start()
+        self.record("S", ["S"])
+
+    def do_stop(self):
+        self.stops += 1
+        self.node.stop()
+        self.record("X", ["X"])
 
     def finish(self):
         self.driving = False
@@ -340,6 +414,7 @@ class Exec:
 
     async def main(self, loop):
         self._keep = []
+        self._futs = []
         self.setup(loop)
         loop.before_handle = self.before
         loop.after_handle = self.hook
@@ -359,7 +434,8 @@ def execute(case, chooser=None):
     log.disabled = True
     try:
         vloop.run(ex.main, step_mode=True)
-        ex._keep = ex._coros = ex.source = ex.node = ex.consumer = ex.loop = ex.finished = None
+        ex.n_workers = len(ex.work_tasks)
+        ex._keep = ex._futs = ex.work_tasks = ex._coros = ex.source = ex.node = ex.consumer = ex.loop = ex.finished = None
         ex.job_fut = ex.emits = ex.outstanding = None
         with warnings.catch_warnings():
             warnings.simplefilter("ignore")      # a user job whose task never got its first step
@@ -372,7 +448,7 @@ def execute(case, chooser=None):
 # ------------------------------------------------------------------ schedules
 
 def T(s):
-    """compact schedule notation: 'a', 'h', 'd', digits k = j<k>"""
+    """compact schedule notation: 'a', 'h', 'd', 'S', 'X', digits k = j<k>"""
     return [("j" + ch) if ch.isdigit() else ch for ch in s]
 
 
@@ -391,11 +467,24 @@ CORPUS = [
     {"p": 2, "tokens": T("ahh0hhhhhdhh"), "style": "corpus:resolved-before-first-step"},
     {"p": 3, "tokens": T("aaaaaaahhhhhhhhhhhhhh2hh1hh0hhhdhhhdhhhdhhhh"), "style": "corpus:p3"},
     {"p": 0, "tokens": T("aaaahhhhhhhhhhh0hh0hh"), "style": "corpus:unbounded"},
+    # repair 63350ae: start() reaches the node while its worker awaits job 0 and job 1 sits in the queue; job 1 finishes first
+    {"p": 1, "tokens": T("aahhhhhhhShhhh1hhhh0hhhhdhhhhdhhh"), "style": "corpus:start-on-running-node"},
+    {"p": 2, "tokens": T("aaahhhhhhhhhShhSh21hhhh0hhhdhhhhdhhhdhhh"), "style": "corpus:start-twice-on-running-node"},
+    # repair 6edff40: stop(); start() with a job in flight and one queued — the new worker must wait for the old one
+    {"p": 1, "tokens": T("aahhhhhhhXShhhh1hhhh0hhhhdhhhhhhdhhh"), "style": "corpus:restart-with-job-in-flight"},
+    # stop(), then the next update() creates the worker; the old one is suspended in get() with its getter registered
+    {"p": 1, "tokens": T("ahhhh0hhhdhhhXahhhhhh0hhhdhhhhhahhhhh0hhdhhhh"), "style": "corpus:stop-then-update-old-worker-in-get"},
+    # stop before the worker's first step; stop/start/stop/start in one turn; start before any data
+    {"p": 1, "tokens": T("aXhhhhShhhh0hhhdhhh"), "style": "corpus:stop-before-first-step"},
+    {"p": 2, "tokens": T("ShXSXSahhhhhhhhhh0hhhdhhhahhhh0hhdhhh"), "style": "corpus:chain-of-idle-workers"},
+    {"p": 1, "tokens": T("aahhhhhhhXShXShhhhhh0hhhhdhhhh0hhhhdhhhhhh"), "style": "corpus:restart-twice-in-flight"},
+    # restart while the consumer is busy; arrivals while there is no worker at all
+    {"p": 1, "tokens": T("aahhhhhhh0hhhXaahhhhhhShhdhhhhhh0hhdhhhh0hhdhh0hhhdhhh"), "style": "corpus:no-worker-for-a-while"},
 ]
 
 
 def gen_case(rng):
-    style = rng.choice(["uniform", "eager-loop", "burst", "saturate", "race"])
+    style = rng.choice(["uniform", "eager-loop", "burst", "saturate", "race", "lifecycle", "lifecycle"])
     p = rng.choice([1, 1, 2, 3])
     toks = []
     if style == "burst":
@@ -414,11 +503,22 @@ def gen_case(rng):
         toks += ["a"] * (p + 2) + ["h"] * (3 * p + 9)
         for _ in range(rng.randint(2, 6)):
             toks += ["j0"] + ["h"] * rng.randint(0, 5) + ["a"] + ["h"] * rng.randint(0, 6) + (["d"] if rng.random() < 0.7 else [])
+    elif style == "lifecycle":
+        # start / stop / restart (stop();start() adjacent) dropped between any two handles of a busy node
+        toks += ["a"] * rng.randint(1, p + 2) + ["h"] * rng.randint(0, 3 * p + 8)
+        for _ in range(rng.randint(3, 9)):
+            toks += rng.choice([["S"], ["X"], ["X", "S"], ["X", "S"], ["X", "a"], ["S", "S"]]) + ["h"] * rng.randint(0, 4)
+            toks += [rng.choice(["j0", "j1", "d", "a", "h", "j0"]) for _ in range(rng.randint(0, 5))]
+            toks += ["h"] * rng.randint(0, 4)
     else:
         w = {"uniform": (3, 6, 2, 2), "eager-loop": (2, 10, 2, 2)}[style]
         for _ in range(rng.choice([10, 20, 35])):
             t = rng.choices(["a", "h", "d", "j"], weights=w)[0]
             toks.append(t if t != "j" else "j%d" % rng.randint(0, 2))
+    # a start / stop / restart anywhere in the other styles as well
+    for _ in range(rng.choice([0, 0, 1, 2])):
+        i = rng.randint(0, len(toks))
+        toks[i:i] = rng.choice([["S"], ["X"], ["X", "S"]])
     return {"p": p, "tokens": toks, "style": style}
 
 
@@ -432,13 +532,16 @@ def case_json(ex):
 
 
 def project(ms):
-    w = ms["worker"]
-    if w in ("s", "g0") or w[0] == "f":
-        # runnable (first step / resolved getter) or suspended on gather's outer future with the consumer done: the node
-        # shows none of: registered getter, awaited job task, busy consumer
-        w = "?"
+    def wst(x):
+        # runnable (first step / resolved getter / resolved wait) or suspended on gather's outer future with the consumer
+        # done: the node shows none of: registered getter, awaited job task, busy consumer, pending predecessor wait
+        if x in ("s", "g0", "p1") or x[0] == "f":
+            return "?"
+        return "p" if x == "p0" else x
     return {"ready": ms["ready"], "locked": ms["holder"] is not None, "holder": ms["holder"],
-            "lockq": [[a, bool(b)] for a, b in ms["lockq"]], "queue": ms["queue"], "worker": w,
+            "lockq": [[a, bool(b)] for a, b in ms["lockq"]], "queue": ms["queue"],
+            "workers": [[bool(stop), wst(x)] for stop, x in ms["workers"]], "workTask": ms["workTask"],
+            "getters": ms["getters"],
             "started": ms["started"], "outs": ms["outs"], "fin": ms["fin"], "acked": sorted(ms["acked"]),
             "ins_done": sorted(ms["started"])}
 
@@ -464,8 +567,8 @@ def compare(ex, ans, aspects):
 
 
 ASPECTS = {
-    "C02": ("ready", "locked", "holder", "lockq", "queue", "started", "outs"),
-    "C03": ("ready", "queue", "worker", "started", "outs", "acked", "ins_done", "fin"),
+    "C02": ("ready", "locked", "holder", "lockq", "queue", "workers", "workTask", "started", "outs"),
+    "C03": ("ready", "queue", "workers", "getters", "started", "outs", "acked", "ins_done", "fin"),
 }
 
 
@@ -483,13 +586,14 @@ def run(ctx, prop, n_cases):
     walks = n_cases if not ctx.thorough() else 2 * n_cases
     for _ in range(walks):
         p = rng.choice([1, 1, 2, 3])
-        wts = {"a": rng.choice([1, 2, 4]), "h": rng.choice([3, 6]), "d": 2, "j": 2}
+        wts = {"a": rng.choice([1, 2, 4]), "h": rng.choice([3, 6]), "d": 2, "j": 2, "S": rng.choice([0.02, 0.4, 1]),
+               "X": rng.choice([0.02, 0.4, 1])}
 
         def chooser(en, wts=wts):
             return rng.choices(en, weights=[wts[e[0]] for e in en])[0]
         execs.append((execute({"p": p, "max_arrivals": p + rng.randint(3, 6), "max_steps": rng.choice([60, 120, 200]),
                                "style": "random-walk"}, chooser=chooser), "random-walk"))
-    lines = [{"op": "trace", "p": ex.p, "variant": VARIANT, "steps": [s["acts"] for s in ex.steps]} for ex, _ in execs]
+    lines = [{"op": "trace", "p": ex.p, "variant": VARIANT, "life": LIFE, "steps": [s["acts"] for s in ex.steps]} for ex, _ in execs]
     answers = common.lean_driver(GROUP, lines) if lines else []
     for (ex, kind), ans in zip(execs, answers):
         ctx.count("mafine:kind:" + kind)
@@ -503,6 +607,14 @@ def run(ctx, prop, n_cases):
             ctx.count("mafine:holder-polled")
         if ex.arrival_behind_wake:
             ctx.count("mafine:arrival-between-release-and-woken-waiter")
+        if ex.stops or ex.starts:
+            ctx.count("mafine:with-start-or-stop")
+        if ex.restarts_inflight:
+            ctx.count("mafine:restart-with-data-in-flight")
+        if ex.waitprev_seen:
+            ctx.count("mafine:new-worker-waited-for-its-predecessor")
+        if ex.n_workers > 1:
+            ctx.count("mafine:several-workers-created")
         why = compare(ex, ans, aspects)
         if why is None:
             ctx.coverage["traces_validated_against_impl"] += 1
@@ -513,5 +625,5 @@ def run(ctx, prop, n_cases):
 
 def replay(case):
     ex = execute(dict(case))
-    ans = common.lean_driver(GROUP, [{"op": "trace", "p": ex.p, "variant": VARIANT, "steps": [s["acts"] for s in ex.steps]}])[0]
+    ans = common.lean_driver(GROUP, [{"op": "trace", "p": ex.p, "variant": VARIANT, "life": LIFE, "steps": [s["acts"] for s in ex.steps]}])[0]
     return {p: compare(ex, ans, ASPECTS[p]) for p in ASPECTS}
